@@ -696,18 +696,6 @@ func resetC17Globals() {
 	dhttp.DefaultJsonPairSize = 16
 }
 
-func parseThriftFn(w *W, sch *TSchema, po thrift.Options) (*thrift.TypeDescriptor, *thrift.FunctionDescriptor) {
-	svc, err := po.NewDescritorFromContent(context.Background(), "sim.thrift", sch.IDL, nil, false)
-	if err != nil {
-		w.Failf("harness-idl", nil, "generated IDL does not parse: %v\n%s", err, sch.IDL)
-	}
-	fn := svc.Functions()["Call"]
-	if fn == nil {
-		w.Failf("harness-idl", nil, "no function Call")
-	}
-	return fn.Request().Struct().FieldById(1).Type(), fn
-}
-
 func runC17(w *W) {
 	t := w.T
 	resetC17Globals()
@@ -936,6 +924,18 @@ func runC17(w *W) {
 			BodyWS:        req.BodyWS,
 			NullTB:        req.HasNull && o.Mapping && o.RHVF && o.Traceback,
 			HTTPConvNoOpt: env.MappingOptOff,
+		}
+		// history: a conversion of a STRIPPED request (same descriptor and options, no source populated,
+		// body `{}`) right before the checked one. It usually fails half-way (missing required field,
+		// inside the trace-back handler ...) and hands its state machine / caches back to the pools dirty.
+		if o.Mapping && t.Chance(1, 3, "env.precursor") {
+			stripped := &hRequest{Method: req.Method, BodyKind: req.BodyKind, Body: []byte("{}"), JBytes: []byte("{}"), URI: req.URI}
+			penv := env
+			penv.Reader = readerPlan{Mode: rdWhole, Chunks: []int{1 << 30}, ErrAfter: -1}
+			w.NextOp("precursor: stripped request (result ignored)")
+			w.opFacts = map[string]string{"env": envInfo, "precursor": "true"}
+			runC17Env(w, sch, desc, fn, stripped, opts, penv, 16)
+			w.Count("precursor_conversions")
 		}
 		w.opFacts = map[string]string{"env": envInfo}
 		r := runC17Env(w, sch, desc, fn, req, opts, env, len(expBytes))
